@@ -52,10 +52,11 @@ ebpps_sample<T,A>::ebpps_sample(std::vector<T, A>&& data, optional<T>&& partial_
 template<typename T, typename A>
 template<typename TT>
 void ebpps_sample<T,A>::replace_content(TT&& item, double theta) {
-  c_ = theta;
+  // a single item contributes at most 1.0 to C; theta can exceed that only by rounding error
+  c_ = std::min(theta, 1.0);
   data_.clear();
   partial_item_.reset();
-  if (theta == 1.0) {
+  if (c_ == 1.0) {
     data_.emplace_back(std::forward<TT>(item));
   } else {
     partial_item_.emplace(std::forward<TT>(item));
